@@ -8,6 +8,8 @@ package xrep
 //@   immutable: p s closeQ sendQ
 //@
 //@ struct socket
+//@   close_token closeQ when closed
+//@   close_token sizeQ
 //@   lock Mutex level 20
 //@   guarded_by Mutex: closed sizeQ recvQ pipes recvExpire sendExpire sendQLen recvQLen bestEffort ttl
 //@   immutable: closeQ
@@ -107,3 +109,6 @@ package xrep
 //@
 //@ func (*socket).AddPipe
 //@   before call:SetPrivate#1 assert cap(p.sendQ) == s.sendQLen
+//@
+//@ func (*socket).RemovePipe
+//@   may_close p.closeQ caller
